@@ -70,7 +70,7 @@ def main():
          "hooks": {"guard": "clarkmcc_cel_rust_verif", "enable": "no hooks are needed: every observation point is public API (DESIGN.md §2.5); checks build /repo's working tree as a path dependency", "baseline_off_cmd": "cd /repo && cargo test --workspace --no-fail-fast --offline", "source_commits": [], "add_only": True},
          "engines": [{"name": "verif-harness", "path": "/verif/harness", "serves_properties": done, "kind_free_text": "Rust binary: proptest-driven choice-sequence generators with shrinking, exhaustive sweeps, reference models, 16 supervised worker processes; cargo-fuzz targets under /verif/fuzz"}],
          "checks": checks,
-         "notes": "See DESIGN.md. Exit codes: 0 held (KNOWN-FINDING lines possible), 1 VIOLATION, 2 inconclusive (build failure / harness defect / watchdog). Genuine defects repaired in /repo are listed in known_findings.json as fixed; one defect (C12) is recorded as known."}
+         "notes": "See DESIGN.md. Exit codes: 0 held (KNOWN-FINDING lines possible), 1 VIOLATION, 2 inconclusive (build failure / harness defect / watchdog). Genuine defects repaired in /repo are listed in known_findings.json as fixed; three defects in literal decoding (C12) are recorded as known (pinned by unit tests or located in the third-party lexer runtime)."}
     if na:
         m["not_applicable"] = na
     json.dump(m, open(os.path.join(ROOT, "MANIFEST.json"), "w"), indent=1)
